@@ -64,7 +64,7 @@ NOT_APPLICABLE = {
 }
 
 # properties whose check exists and runs clean/with known findings on the current tree
-BUILT = os.environ.get('VERIF_BUILT', 'C03 C05 C06 C07 C08 C09 C10 C13').split()
+BUILT = os.environ.get('VERIF_BUILT', 'C01 C03 C05 C06 C07 C08 C09 C10 C13').split()
 
 
 def main():
